@@ -89,8 +89,10 @@ bitvResize(BitvClass newc, BitvClass oldc, Bitv b)
 
 	new = bitvNew(newc);
 	for (i = 0; i < oldc->nwords; i++)
-		new[i] = *b++;
-	
+		new[i] = b[i];
+	for ( ; i < newc->nwords; i++)
+		new[i] = 0;
+
 	bitvFree(b);
 
 	return new;
